@@ -5,6 +5,7 @@ from typing import TYPE_CHECKING
 import attrs
 import h5py
 import numpy as np
+from astropy.coordinates import Angle, SkyCoord
 from matplotlib import pyplot as plt
 
 from sigpyproc.core import stats
@@ -269,6 +270,11 @@ class RFIMask:
             for key, value in attrs.asdict(self.header).items():
                 if isinstance(value, np.integer | np.floating | int | float | str):
                     fp.attrs[key] = value
+            # Sky position and pointing are not plain numbers: store them in degrees
+            fp.attrs["coord_ra_deg"] = self.header.coord.ra.deg
+            fp.attrs["coord_dec_deg"] = self.header.coord.dec.deg
+            fp.attrs["azimuth_deg"] = self.header.azimuth.deg
+            fp.attrs["zenith_deg"] = self.header.zenith.deg
             for key, value in attrs.asdict(self).items():
                 if isinstance(value, np.ndarray):
                     fp.create_dataset(key, data=value)
@@ -392,6 +398,14 @@ class RFIMask:
             for key, value in fp_attrs.items()
             if key in attrs.fields_dict(Header)
         }
+        if "coord_ra_deg" in fp_attrs:
+            hdr_checked["coord"] = SkyCoord(
+                fp_attrs["coord_ra_deg"],
+                fp_attrs["coord_dec_deg"],
+                unit="deg",
+            )
+            hdr_checked["azimuth"] = Angle(fp_attrs["azimuth_deg"], unit="deg")
+            hdr_checked["zenith"] = Angle(fp_attrs["zenith_deg"], unit="deg")
         kws = {
             "header": Header(**hdr_checked),
             "threshold": fp_attrs["threshold"],
